@@ -642,3 +642,27 @@ package tabular
 //@   loop#2 invariant (t.ErrorContainer.errors_.arr == old(t.ErrorContainer.errors_.arr) && t.ErrorContainer.errors_.off == old(t.ErrorContainer.errors_.off) && t.ErrorContainer.errors_.cap == old(t.ErrorContainer.errors_.cap)) || fresh(t.ErrorContainer.errors_)
 //@   loop#2 decreases len(hr.cells) - rangeindex
 //@   entry unfold chainOK(heap[valueProperty.chain], heap[valueProperty.key], heap[valueProperty.val], nil)
+
+//@ -- ---------------------------------------------------------------------
+//@ -- callback registration (C13, C10)
+//@ -- ---------------------------------------------------------------------
+
+//@ -- supported(T, target): the registration matrix of the documentation
+//@ spec supported(T Type, target int) bool = (T == type[*ATable] && 0 <= target && target <= 2) || (T == type[*column] && 0 <= target && target <= 1) || (T == type[*Row] && 0 <= target && target <= 2) || (T == type[*Cell] && 0 <= target && target <= 1)
+
+//@ -- setLoc(owner, target): the callback set a supported registration addresses
+//@ spec opaque setLoc(o Iface, target int) Loc = dyn(o) == type[*ATable] ? (target == 0 ? fldloc(o.(*ATable), 7) : (target == 1 ? fldloc(o.(*ATable), 8) : fldloc(o.(*ATable), 9))) : (dyn(o) == type[*column] ? (target == 0 ? fldloc(o.(*column), 3) : fldloc(o.(*column), 2)) : (dyn(o) == type[*Row] ? (target == 1 ? fldloc(o.(*Row), 3) : fldloc(o.(*Row), 4)) : fldloc(o.(*Cell), 6)))
+
+//@ -- grewBy(new, old, cb): slice `new` is `old` with cb appended
+//@ pred grewBy(n []PropertyCallback, o []PropertyCallback, hn (Array Loc Iface), ho (Array Loc Iface), cb Iface) = len(n) == len(o) + 1 && hn[elemloc(n, len(o))] === cb && forall i int :: {hn[elemloc(n, i)]} 0 <= i && i < len(o) ==> hn[elemloc(n, i)] === ho[elemloc(o, i)]
+
+//@ func (*ATable).RegisterPropertyCallback
+//@   tags C13,C10,C09
+//@   requires [owner-live] (dyn(owner) == type[*ATable] ==> owner.(*ATable) != nil) && (dyn(owner) == type[*column] ==> owner.(*column) != nil) && (dyn(owner) == type[*Row] ==> owner.(*Row) != nil) && (dyn(owner) == type[*Cell] ==> owner.(*Cell) != nil)
+//@   assigns when supported(dyn(owner), target): loc(callbackSet.addTime, fldloc(setLoc(owner, target), 0)), when supported(dyn(owner), target): loc(callbackSet.preCellRenderTime, fldloc(setLoc(owner, target), 1)), when supported(dyn(owner), target): loc(callbackSet.renderTime, fldloc(setLoc(owner, target), 2)), when supported(dyn(owner), target): loc(callbackSet.postCellRenderTime, fldloc(setLoc(owner, target), 3)), heap[[]PropertyCallback]
+//@   ensures [matrix] result == nil <==> (supported(dyn(owner), target) && 0 <= when && when <= 3) @C13
+//@   ensures [registered-add] result == nil && when == 0 ==> grewBy(heap[callbackSet.addTime][fldloc(setLoc(owner, target), 0)], old(heap[callbackSet.addTime][fldloc(setLoc(owner, target), 0)]), heap[[]PropertyCallback], old(heap[[]PropertyCallback]), theNewCallback) @C13
+//@   ensures [registered-precell] result == nil && when == 1 ==> grewBy(heap[callbackSet.preCellRenderTime][fldloc(setLoc(owner, target), 1)], old(heap[callbackSet.preCellRenderTime][fldloc(setLoc(owner, target), 1)]), heap[[]PropertyCallback], old(heap[[]PropertyCallback]), theNewCallback) @C13
+//@   ensures [registered-render] result == nil && when == 2 ==> grewBy(heap[callbackSet.renderTime][fldloc(setLoc(owner, target), 2)], old(heap[callbackSet.renderTime][fldloc(setLoc(owner, target), 2)]), heap[[]PropertyCallback], old(heap[[]PropertyCallback]), theNewCallback) @C13
+//@   ensures [registered-postcell] result == nil && when == 3 ==> grewBy(heap[callbackSet.postCellRenderTime][fldloc(setLoc(owner, target), 3)], old(heap[callbackSet.postCellRenderTime][fldloc(setLoc(owner, target), 3)]), heap[[]PropertyCallback], old(heap[[]PropertyCallback]), theNewCallback) @C13
+//@   ensures [refused-changes-nothing] result != nil ==> heap[callbackSet.addTime] === old(heap[callbackSet.addTime]) && heap[callbackSet.renderTime] === old(heap[callbackSet.renderTime]) && heap[callbackSet.preCellRenderTime] === old(heap[callbackSet.preCellRenderTime]) && heap[callbackSet.postCellRenderTime] === old(heap[callbackSet.postCellRenderTime]) @C13
